@@ -434,6 +434,115 @@ def r5(ctx):
     ctx.check("Choice.encode:one-alternative", ok and bool(lp.orelse) and isinstance(lp.orelse[-1], ast.Raise), where(c.module, enc), "after encoding one alternative the loop must stop; no alternative set must be an error")
 
 
+@rule("C03.R9", "NameValue's hand-written decoder takes every value its encoder can emit: an application tag after the name is consumed and stored on every path, as a DateTime only when a Time follows a Date", floor=3,
+      engines="E1 paths")
+def r9(ctx):
+    prog = ctx.prog
+    c = prog.cls("basetypes", "NameValue")
+    m = c.module
+    d = c.methods.get("decode")
+    if d is None:
+        raise AnchorMissing("NameValue.decode")
+    tl = d.args.args[1].arg
+    evn = Evaluator(prog, m, c)
+    n_val = n_dt = n_prim = 0
+    ok = True
+    why = ""
+    for p_ in enumerate_paths(d):
+        if p_.term == "raise":
+            continue
+        # `self.value is None` is decided by the last store on the path (None, or an object just constructed)
+        isnone = None
+        feas = True
+        for e_ in p_.events:
+            if e_.kind == "stmt" and isinstance(e_.node, ast.Assign) and any(norm(t) == "self.value" for t in e_.node.targets):
+                v_ = e_.node.value
+                isnone = True if (isinstance(v_, ast.Constant) and v_.value is None) else False if isinstance(v_, ast.Call) else None
+            elif e_.kind == "cond" and norm(e_.node) in ("self.value is None", "self.value is not None") and isnone is not None:
+                if (isnone == (norm(e_.node) == "self.value is None")) != e_.pol:
+                    feas = False
+        if not feas:
+            continue
+        conds = [(norm(t), pol) for t, pol in p_.conds()]
+        present = any("applicationTagClass" in t and "next_tag" not in t and pol and "tag" in t for t, pol in conds)
+        if not present:
+            # no value: nothing may be consumed after the name
+            pops = sum(1 for x in p_.calls() if norm(x.func) == "%s.Pop" % tl)
+            ok = ok and pops == 1
+            continue
+        n_val += 1
+        stores = [nd for nd in path_nodes(p_) if isinstance(nd, ast.Assign) and any(norm(t) == "self.value" for t in nd.targets)]
+        last = stores[-1] if stores else None
+        pops = sum(1 for x in p_.calls() if norm(x.func) == "%s.Pop" % tl)
+        dt = any(norm(x.func) == "self.value.decode" for x in p_.calls())
+        time_follows = any("timeAppTag" in t and pol for t, pol in conds) and any("dateAppTag" in t and pol for t, pol in conds)
+        if dt:
+            n_dt += 1
+            good = time_follows and last is not None and norm(last.value) == "DateTime()" and pops == 1
+        else:
+            n_prim += 1
+            good = last is not None and norm(last.value).endswith(".app_to_object()") and pops == 2
+        if not good:
+            ok = False
+            why = p_.describe()[:200]
+    ctx.check("NameValue.decode:value-always-taken", ok and n_dt >= 1 and n_prim >= 2, where(m, d),
+              "a value tag that is present must be consumed and stored on every path (a Date not followed by a Time is a plain Date): %s" % why)
+    e = c.methods.get("encode")
+    calls = [norm(x.func) for x in calls_in(e)] if e else []
+    ctx.check("NameValue.encode:name-then-value", e is not None and "self.value.encode" in calls and any(x.endswith("app_to_context") for x in calls), where(m, e or c.node), "the name goes out under context 0, then the value")
+    ctx.check("NameValue.decode:name-first", any(norm(x.func).endswith("context_to_app") for x in calls_in(d)), where(m, d), "the name is read from context tag 0")
+
+
+@rule("C03.R8", "class dispatch in the generic coders reaches the arm written for the class: an arm for a class is not shadowed by an earlier arm for one of its base classes", floor=3,
+      engines="E0 MRO + if/elif chains")
+def r8(ctx):
+    prog = ctx.prog
+    n = 0
+    for modname in ("constructeddata",):
+        m = prog.module(modname)
+        for c in m.classes.values():
+            for fname, f in sorted(c.methods.items()):
+                if fname not in ("encode", "decode"):
+                    continue            # the wire coders; dict_contents / cast_in have such dead arms too, with the same effect as the live ones
+                for top in [x for x in ast.walk(f) if isinstance(x, ast.If) and not (isinstance(getattr(x, "_parent", None), ast.If) and getattr(x, "_parent").orelse == [x])]:
+                    chain = []
+                    node = top
+                    while True:
+                        chain.append(node)
+                        if len(node.orelse) == 1 and isinstance(node.orelse[0], ast.If):
+                            node = node.orelse[0]
+                        else:
+                            break
+                    arms = []
+                    for a in chain:
+                        t = a.test
+                        if isinstance(t, ast.Call) and norm(t.func) in ("issubclass", "isinstance") and len(t.args) == 2 and isinstance(t.args[1], (ast.Name, ast.Attribute)):
+                            k = prog.resolve_class_expr(m, t.args[1])
+                            if k is not None:
+                                arms.append((norm(t.args[0]), k, a))
+                    if len(arms) < 2:
+                        continue
+                    for i, (subj, k, a) in enumerate(arms):
+                        first = next(j for j, (s2, k2, a2) in enumerate(arms) if s2 == subj and prog.is_subclass(k, k2.module.name, k2.name))
+                        if first == i or arms[first][1] is k:
+                            # reached (or a repetition of an arm for the same class further up, which is merely dead)
+                            n += 1
+                            ctx.check("%s.%s:arm[%s is a %s]@%d" % (c.name, fname, subj, k.name, i), True, where(m, a), "")
+                        else:
+                            n += 1
+                            ctx.check("%s.%s:arm[%s is a %s]@%d" % (c.name, fname, subj, k.name, i), False, where(m, a),
+                                      "the arm for %s can never be taken: %s is a subclass of %s, which an earlier arm of the same chain accepts - values of this class are handled by the wrong arm" % (k.name, k.name, arms[first][1].name))
+    # every class the chains of Sequence.decode handle on the encode side has its arm on the decode side
+    seq = prog.cls("constructeddata", "Sequence")
+    def tested(f):
+        return {norm(t.args[1]) for x in ast.walk(f) if isinstance(x, ast.If) for t in [x.test] if isinstance(t, ast.Call) and norm(t.func) == "issubclass" and len(t.args) == 2}
+    enc_k, dec_k = tested(seq.methods["encode"]), tested(seq.methods["decode"])
+    ctx.check("Sequence:same-classes-both-sides", "AnyAtomic" in dec_k and "Atomic" in dec_k and any("AnyAtomic" in k_ for k_ in enc_k), where(seq.module, seq.methods["decode"]),
+              "decode must dispatch on every element class encode does (encode %s, decode %s)" % (sorted(enc_k), sorted(dec_k)))
+    if n < 2:
+        raise ShapeError("class dispatch chains not found")
+
+
 @rule("C03.R6", "trailing data after the last parameter is refused", floor=2, engines="E1 paths")
 def r6(ctx):
     prog = ctx.prog
@@ -461,6 +570,23 @@ def r6(ctx):
     # encode side: header first, then tags
     e = c.methods.get("encode")
     calls = [norm(x.func) for x in calls_in(e)]
+    # each encode / decode works on a tag list of its own: Sequence.encode only appends, so a list that survives from an
+    # earlier encode (or from the constructor) makes the second encoding of the same PDU carry its parameters twice
+    for fn_, user in ((e, "Sequence.encode"), (f, "self._tag_list.decode")):
+        okf = True
+        npaths = 0
+        for p_ in enumerate_paths(fn_):
+            if p_.term == "raise" and not any(isinstance(x, ast.Call) and norm(x.func) == user for x in path_nodes(p_)):
+                continue
+            npaths += 1
+            fresh = False
+            for nd in path_nodes(p_):
+                if isinstance(nd, ast.Assign) and any(norm(t) == "self._tag_list" for t in nd.targets):
+                    fresh = isinstance(nd.value, ast.Call) and norm(nd.value.func) == "TagList" and not nd.value.args and not nd.value.keywords
+                elif isinstance(nd, ast.Call) and norm(nd.func) == user:
+                    okf = okf and fresh
+                    break
+        ctx.check("APCISequence.%s:fresh-tag-list" % fn_.name, okf and npaths >= 1, where(c.module, fn_), "%s must be given a tag list created in this very call" % user)
     ctx.check("APCISequence.encode:order", calls.count("Sequence.encode") == 1 and calls.count("self._tag_list.encode") == 1 and "apdu.update" in calls, where(c.module, e), "encode must copy the header, encode the sequence into a fresh tag list and emit it")
 
 
